@@ -328,11 +328,11 @@ func Recover(f func()) (msg string, panicked bool) {
 // ShrinkList is delta debugging on a list: it returns a sub-list on which fails still holds,
 // trying to remove chunks of decreasing size. fails must be deterministic.
 func ShrinkList[T any](xs []T, fails func([]T) bool) []T {
-	cur := append([]T(nil), xs...)
+	cur := append([]T{}, xs...)
 	for chunk := (len(cur) + 1) / 2; chunk >= 1; {
 		removed := false
 		for i := 0; i+chunk <= len(cur); {
-			cand := append(append([]T(nil), cur[:i]...), cur[i+chunk:]...)
+			cand := append(append([]T{}, cur[:i]...), cur[i+chunk:]...)
 			if fails(cand) {
 				cur = cand
 				removed = true
